@@ -748,7 +748,11 @@ func (h *RealtimeHandler) HandleEntityComponentUpdate(ctx context.Context, msg h
 		Data:                  req.Data,
 	}
 
-	session.GetEntityComponents().Update(&entityComponent)
+	if err := session.GetEntityComponents().Update(&entityComponent); err != nil {
+		// The entity component has not been added: nothing to update, nothing
+		// to notify.
+		return nil
+	}
 
 	h.FeatureFlags.IfNotSet(featureflag.FlagDisableEntityComponentUpdateBroadcast, func() {
 		session.GetEntityComponents().Notify(entityComponent.EntityComponentTypeId, func(participantIDs []uint32) {
